@@ -301,6 +301,9 @@ def main(argv):
         print(f"CHECK-ERROR property={prop} internal error")
         return 2
 
+    if os.environ.get('VERIF_DUMP'):
+        for o in all_obs:
+            print(f"  {'held    ' if o.ok else 'VIOLATED'} [{getattr(o, 'config', '?')}] [{o.rule}] {o.fn.split('::', 2)[-1]}: {o.what} -- {o.detail}"[:400])
     known = load_known()
     viol, kf = [], []
     seen_keys = set()
